@@ -378,7 +378,7 @@ func (u *Unit) eval(st *State, e ast.Expr) Val {
 		return u.evalBinary(st, x)
 	case *ast.StarExpr:
 		p := u.eval(st, x.X)
-		u.oblige(st, "nil", exprStr(u.eng.fset, x), tNot(tEq(p.S, "0")), x.Pos())
+		u.nilOblige(st, exprStr(u.eng.fset, x), p.S, x.Pos())
 		pt := p.T.Underlying().(*types.Pointer)
 		if isStructVal(pt.Elem()) || isArrayT(pt.Elem()) {
 			return scalar(p.S, SInt, pt.Elem())
@@ -542,8 +542,12 @@ func (u *Unit) evalBinary(st *State, x *ast.BinaryExpr) Val {
 	}
 	a := u.eval(st, x.X)
 	b := u.eval(st, x.Y)
-	T := u.typeOf(x)
-	switch x.Op {
+	return u.arith(st, x.Op, a, b, u.typeOf(x), x)
+}
+
+// arith applies a binary operator to two evaluated operands (shared by binary expressions and op-assignments).
+func (u *Unit) arith(st *State, op token.Token, a, b Val, T types.Type, x ast.Node) Val {
+	switch op {
 	case token.EQL, token.NEQ:
 		// arrays compare by content
 		if at, ok := a.T.Underlying().(*types.Array); ok && a.Kind == KScalar && b.Kind == KScalar && isArrayT(b.T) && at.Len() <= 64 && !isSliceT(at.Elem()) && !isStructVal(at.Elem()) {
@@ -554,7 +558,7 @@ func (u *Unit) evalBinary(st *State, x *ast.BinaryExpr) Val {
 				cs = append(cs, tEq(tSel(ca, tInt(i)), tSel(cb, tInt(i))))
 			}
 			t := tAnd(cs...)
-			if x.Op == token.NEQ {
+			if op == token.NEQ {
 				t = tNot(t)
 			}
 			return boolVal(t)
@@ -577,7 +581,7 @@ func (u *Unit) evalBinary(st *State, x *ast.BinaryExpr) Val {
 		}
 	case token.OR, token.XOR, token.AND_NOT:
 		// a<<k | b with b < 2^k, or disjoint-bit or: handled for the literal-flag case
-		if x.Op == token.OR {
+		if op == token.OR {
 			if m, ok := isIntLit(b.S); ok && isPow2(m) {
 				// set a single bit
 				bit := fmt.Sprintf("(mod (div %s %s) 2)", a.S, tInt(m))
@@ -598,7 +602,7 @@ func (u *Unit) evalBinary(st *State, x *ast.BinaryExpr) Val {
 			return v
 		}
 	}
-	r := u.binop(nil, x.Op, a, b)
+	r := u.binop(nil, op, a, b)
 	if r.Sort == "?" {
 		u.note("abstracted", "operator in "+exprStr(u.eng.fset, x))
 		v := u.freshVal("binop", T)
@@ -608,7 +612,7 @@ func (u *Unit) evalBinary(st *State, x *ast.BinaryExpr) Val {
 	r.T = T
 	// arithmetic on fixed-width unsigned / small types wraps
 	if r.Sort == SInt {
-		switch x.Op {
+		switch op {
 		case token.ADD, token.SUB, token.MUL, token.SHL:
 			if b, ok := T.Underlying().(*types.Basic); ok && b.Info()&types.IsInteger != 0 {
 				switch b.Kind() {
@@ -676,7 +680,7 @@ func (u *Unit) walkFields(st *State, base Val, index []int, at ast.Node) Val {
 	var v Val
 	for k, i := range index {
 		if p, ok := cur.Underlying().(*types.Pointer); ok {
-			u.oblige(st, "nil", exprStr(u.eng.fset, at), tNot(tEq(ref, "0")), at.Pos())
+			u.nilOblige(st, exprStr(u.eng.fset, at), ref, at.Pos())
 			cur = p.Elem()
 		}
 		s := structOf(cur)
@@ -990,4 +994,15 @@ func (u *Unit) hasDynType(st *State, ref Term, T types.Type) Term {
 		return tAnd(tNot(tEq(ref, "0")), tApp(fn, tApp("dyntype", ref)))
 	}
 	return tAnd(tNot(tEq(ref, "0")), tEq(tApp("dyntype", ref), u.typeID(T)))
+}
+
+
+// nilOblige: nil-dereference obligations are generated only for functions whose contract asks for them
+// (flag nilcheck); elsewhere "no nil dereference" is an assumption listed in the evidence.
+func (u *Unit) nilOblige(st *State, label string, ref Term, pos token.Pos) {
+	if u.root().flag("nilcheck") {
+		u.oblige(st, "nil", label, tNot(tEq(ref, "0")), pos)
+		return
+	}
+	u.note("assumptions", "nil dereferences are not checked in "+u.root().name+" (no nilcheck flag)")
 }
